@@ -623,4 +623,138 @@ theorem map_toInt_int (ints : List Int) : (ints.map (Val.int : Int → Val K)).m
   | nil => rfl
   | cons n rest ih => simp only [List.map_cons, ih, Val.toInt]
 
+/-! ## RGBLed -/
+
+/-! ### the integer rounding of the fade block -/
+
+theorem ediv_eq_of {a n y : Int} (hn : 0 < n) (h1 : y * n ≤ a) (h2 : a < y * n + n) : a / n = y :=
+  (Int.ediv_eq_iff_of_pos hn).mpr ⟨h1, h2⟩
+
+theorem fadeChan_nonneg_eq {s t i n : Int} (hn : 0 ≤ n) (h : 0 ≤ (t - s) * i) :
+    FRgb.fadeChan s t i n = s + ((t - s) * i + n / 2) / n := by
+  have h2 : Int.tdiv n 2 = n / 2 := Int.tdiv_eq_ediv_of_nonneg hn
+  unfold FRgb.fadeChan
+  simp only [ge_iff_le, h, if_true, h2]
+  rw [Int.tdiv_eq_ediv_of_nonneg (by omega)]
+
+theorem fadeChan_neg_eq {s t i n : Int} (hn : 0 ≤ n) (h : (t - s) * i < 0) :
+    FRgb.fadeChan s t i n = s - ((s - t) * i + n / 2) / n := by
+  have h2 : Int.tdiv n 2 = n / 2 := Int.tdiv_eq_ediv_of_nonneg hn
+  have h3 : (s - t) * i = -((t - s) * i) := by ring
+  unfold FRgb.fadeChan
+  simp only [ge_iff_le, not_le.mpr h, if_false, h2]
+  have : (t - s) * i - n / 2 = -((s - t) * i + n / 2) := by rw [h3]; ring
+  rw [this, Int.neg_tdiv, Int.tdiv_eq_ediv_of_nonneg (by omega)]
+  ring
+
+theorem half_div_bounds {D i n : Int} (hD : 0 ≤ D) (hn : 0 < n) (hi0 : 0 ≤ i) (hi : i ≤ n) :
+    0 ≤ (D * i + n / 2) / n ∧ (D * i + n / 2) / n ≤ D := by
+  have h1 : 0 ≤ D * i := Int.mul_nonneg hD hi0
+  have h2 : D * i ≤ D * n := Int.mul_le_mul_of_nonneg_left hi hD
+  constructor
+  · exact Int.ediv_nonneg (by omega) hn.le
+  · have : (D * i + n / 2) / n < D + 1 := by
+      apply Int.ediv_lt_of_lt_mul hn
+      have : (D + 1) * n = D * n + n := by ring
+      omega
+    omega
+
+theorem fadeChan_bounds {s t i n : Int} (hn : 0 < n) (hi0 : 0 ≤ i) (hi : i ≤ n) :
+    (s ≤ t → s ≤ FRgb.fadeChan s t i n ∧ FRgb.fadeChan s t i n ≤ t) ∧
+    (t ≤ s → t ≤ FRgb.fadeChan s t i n ∧ FRgb.fadeChan s t i n ≤ s) := by
+  constructor
+  · intro hst
+    have hnum : 0 ≤ (t - s) * i := Int.mul_nonneg (by omega) hi0
+    rw [fadeChan_nonneg_eq hn.le hnum]
+    obtain ⟨b1, b2⟩ := half_div_bounds (D := t - s) (by omega) hn hi0 hi
+    omega
+  · intro hts
+    rcases lt_or_ge ((t - s) * i) 0 with hneg | hnn
+    · rw [fadeChan_neg_eq hn.le hneg]
+      obtain ⟨b1, b2⟩ := half_div_bounds (D := s - t) (by omega) hn hi0 hi
+      omega
+    · rw [fadeChan_nonneg_eq hn.le hnn]
+      have h0 : (t - s) * i ≤ 0 := Int.mul_nonpos_of_nonpos_of_nonneg (by omega) hi0
+      have h1 : (t - s) * i = 0 := by omega
+      rw [h1, Int.zero_add, Int.ediv_eq_zero_of_lt (by omega) (by omega)]
+      omega
+
+theorem fadeChan_end (s t n : Int) (hn : 0 < n) : FRgb.fadeChan s t n n = t := by
+  rcases lt_or_ge ((t - s) * n) 0 with hneg | hnn
+  · rw [fadeChan_neg_eq hn.le hneg, ediv_eq_of (y := s - t) hn (by omega) (by omega)]
+    ring
+  · rw [fadeChan_nonneg_eq hn.le hnn, ediv_eq_of (y := t - s) hn (by omega) (by omega)]
+    ring
+
+/-- the firmware's value in terms of the Euclidean quotient and remainder of `(goal - cur) * i` by `n` -/
+theorem fadeChan_eq (cur goal i n q r : Int) (hn : 0 < n) (hnum : (goal - cur) * i = q * n + r)
+    (hr0 : 0 ≤ r) (hr : r < n) :
+    FRgb.fadeChan cur goal i n =
+      cur + q + (if 0 ≤ (goal - cur) * i then (if n ≤ 2 * r then 1 else 0) else (if n < 2 * r then 1 else 0)) := by
+  have e1 : (q + 1) * n = q * n + n := by ring
+  have e2 : (-q) * n = -(q * n) := by ring
+  have e3 : (-q - 1) * n = -(q * n) - n := by ring
+  by_cases hnn : 0 ≤ (goal - cur) * i
+  · rw [fadeChan_nonneg_eq hn.le hnn, if_pos hnn]
+    by_cases h2 : n ≤ 2 * r
+    · rw [if_pos h2, ediv_eq_of (y := q + 1) hn (by rw [e1]; omega) (by rw [e1]; omega)]
+      ring
+    · rw [if_neg h2, ediv_eq_of (y := q) hn (by omega) (by omega)]
+      ring
+  · have hneg : (goal - cur) * i < 0 := not_le.mp hnn
+    have h3 : (cur - goal) * i = -((goal - cur) * i) := by ring
+    rw [fadeChan_neg_eq hn.le hneg, if_neg hnn]
+    by_cases h2 : n < 2 * r
+    · rw [if_pos h2, ediv_eq_of (y := -q - 1) hn (by rw [e3]; omega) (by rw [e3]; omega)]
+      ring
+    · rw [if_neg h2, ediv_eq_of (y := -q) hn (by rw [e2]; omega) (by rw [e2]; omega)]
+      ring
+
+/-- Python's `round` of the exact interpolated value, in the same terms -/
+theorem roundHEK_rat (c q r n : Int) (hn : 0 < n) (hr0 : 0 ≤ r) (hr : r < n) :
+    roundHEK ((c : K) + ((q * n + r : Int) : K) / (n : K)) =
+      c + q + (if 2 * r < n then 0 else if n < 2 * r then 1 else if (c + q) % 2 = 0 then 0 else 1) := by
+  have hn' : (0 : K) < (n : K) := by exact_mod_cast hn
+  have hr0' : (0 : K) ≤ (r : K) := by exact_mod_cast hr0
+  have hr' : (r : K) < (n : K) := by exact_mod_cast hr
+  have hx : (c : K) + ((q * n + r : Int) : K) / (n : K) = ((c + q : Int) : K) + (r : K) / (n : K) := by
+    push_cast; field_simp; ring
+  have hfl : ⌊((c + q : Int) : K) + (r : K) / (n : K)⌋ = c + q := by
+    rw [Int.floor_eq_iff]
+    have h1 : 0 ≤ (r : K) / (n : K) := div_nonneg hr0' hn'.le
+    have h2 : (r : K) / (n : K) < 1 := (div_lt_one hn').mpr hr'
+    constructor <;> linarith
+  have hlt : ((r : K) / (n : K) < 1 / 2) ↔ 2 * r < n := by
+    rw [div_lt_iff₀ hn', ← Int.cast_lt (R := K)]
+    push_cast
+    constructor <;> intro h <;> linarith
+  have hgt : (1 / 2 < (r : K) / (n : K)) ↔ n < 2 * r := by
+    rw [lt_div_iff₀ hn', ← Int.cast_lt (R := K)]
+    push_cast
+    constructor <;> intro h <;> linarith
+  rw [hx]
+  unfold roundHEK
+  simp only []
+  rw [hfl, add_sub_cancel_left]
+  simp only [hlt, hgt]
+  split_ifs <;> omega
+
+theorem fade_step_close (cur goal i n : Int) (hn : 0 < n) :
+    (FRgb.fadeChan cur goal i n - Host.RGB.interp (α := K) cur goal i n).natAbs ≤ 1 ∧
+    ((2 * ((goal - cur) * i)) % (2 * n) ≠ n → FRgb.fadeChan cur goal i n = Host.RGB.interp (α := K) cur goal i n) := by
+  have hnum : (goal - cur) * i = ((goal - cur) * i / n) * n + (goal - cur) * i % n := by
+    exact (Int.ediv_mul_add_emod _ _).symm
+  have hmod : 2 * ((goal - cur) * i) % (2 * n) = 2 * ((goal - cur) * i % n) :=
+    Int.mul_emod_mul_of_pos _ _ (by norm_num)
+  have hr0 : 0 ≤ (goal - cur) * i % n := Int.emod_nonneg _ hn.ne'
+  have hr : (goal - cur) * i % n < n := Int.emod_lt_of_pos _ hn
+  rw [hmod]
+  generalize (goal - cur) * i / n = q at hnum
+  generalize (goal - cur) * i % n = r at hnum hr0 hr ⊢
+  have hfw := fadeChan_eq cur goal i n q r hn hnum hr0 hr
+  have hhost : Host.RGB.interp (α := K) cur goal i n = _ := by
+    rw [interp_eq, hnum]; exact roundHEK_rat cur q r n hn hr0 hr
+  rw [hfw, hhost]
+  split_ifs <;> omega
+
 end Reduino.Lemmas.C04
